@@ -5,6 +5,7 @@ import (
 	"bytes"
 	"encoding/hex"
 	"fmt"
+	"io"
 
 	"github.com/mandykoh/prism/meta/icc"
 
@@ -82,6 +83,11 @@ func C16(tier string) {
 		for ri, mk := range []func() *icc.ProfileReader{
 			func() *icc.ProfileReader { return icc.NewProfileReader(bytes.NewReader(data)) },
 			func() *icc.ProfileReader { return icc.NewProfileReader(bufio.NewReaderSize(bytes.NewReader(data), 16)) },
+			// a source that hands out at most 7 bytes per call: a reader that takes
+			// one short Read for the end of the header is exposed
+			func() *icc.ProfileReader {
+				return icc.NewProfileReader(bufio.NewReaderSize(&dribble{r: bytes.NewReader(data), n: 7}, 16))
+			},
 		} {
 			r.Eval(1)
 			var p *icc.Profile
@@ -261,4 +267,17 @@ func C16(tier string) {
 		subRunArch(r, "C16", "386")
 	}
 	r.Finish()
+}
+
+// dribble delivers at most n bytes per Read call.
+type dribble struct {
+	r io.Reader
+	n int
+}
+
+func (d *dribble) Read(p []byte) (int, error) {
+	if len(p) > d.n {
+		p = p[:d.n]
+	}
+	return d.r.Read(p)
 }
